@@ -269,6 +269,9 @@ def body(chk):
         chk.note("the strace-held writer was not observed with an empty file (timing); that scenario contributed no evidence in this run")
     chk.assumptions += ["crash model: whatever PREFIX of the index document is on disk (the writer truncates, then writes front to back); a hole can only "
                         "arise between two writers of byte-identical documents", "RLIMIT_FSIZE makes the kernel cut the real write at k bytes (EFBIG = disk full)"]
+    from harness import sessioncheck
+
+    sessioncheck.standard(chk)
     chk.finish(rule="crash points = prefix lengths of the real index document (quick: structural boundaries +-1 + 24 evenly spaced; thorough: every byte) x "
                     "{local, adjacent, both} x 4 filesystems x 2 levels, each followed by default open / create_cache / use_cache; + real interrupted "
                     "writers (file-size limit, SIGKILL, strace-held writer with concurrent reader and second writer, racing writers); distinct = "
